@@ -49,6 +49,26 @@ def tail2(name):
     return seg + "::" + m
 
 
+_getter_cache = {}
+
+
+def getter_fields(prog, name):
+    """If `name` is a local accessor `fn f(&self) -> &T { &self.a.b }` return ('a','b'), else None."""
+    if not name:
+        return None
+    key = (id(prog), name)
+    if key in _getter_cache:
+        return _getter_cache[key]
+    _getter_cache[key] = None
+    b = prog.bodies.get(name)
+    if b is None or b.argc != 1 or len(b.blocks) > 3 or b.calls():
+        return None
+    ap = trace_local(b, 0, through_calls=False)
+    if ap.root == ("arg", 1) and ap.proj and all(not p.startswith("as:") and p not in ("[]", "[c]") for p in ap.proj):
+        _getter_cache[key] = tuple(ap.proj)
+    return _getter_cache[key]
+
+
 def is_passthrough(call):
     return tail2(call.callee) in PASSTHROUGH
 
@@ -117,6 +137,10 @@ def trace_local(body, l, depth=0, through_calls=True, _seen=None):
         return AP(("local", l))
     b, i, d = defs[0]
     if isinstance(d, Call):
+        if through_calls and d.args:
+            g = getter_fields(body.prog, d.name())
+            if g is not None:
+                return trace_operand(body, d.args[0], depth + 1, through_calls, _seen).extend(g)
         if through_calls and is_passthrough(d) and d.args:
             a = d.args[0]
             r = trace_operand(body, a, depth + 1, through_calls, _seen)
@@ -158,6 +182,10 @@ def trace_operand(body, op, depth=0, through_calls=True, _seen=None):
             return AP(("fn", c["fn"]))
         if "uneval" in c and "promoted" not in c:
             return AP(("static", c["uneval"]))
+        if "promoted" in c and "bytes" not in c and "str" not in c:
+            v = body.promoted_value(c["promoted"])
+            if v is not None and not isinstance(v, (list, dict)) and v.__class__.__name__ in ("Variant", "str", "int", "float", "bool"):
+                return AP(("const", repr(v) if v.__class__.__name__ == "Variant" else v))
         v = op.const_value()
         if v is None:
             v = c.get("bits", c.get("ty"))
